@@ -366,7 +366,7 @@ def run_property(prop_id, tier, budget_s=None, workers=None, only=None):
     if only is not None:
         sps = [s for s in sps if only(s)]
     if budget_s is None:
-        budget_s = getattr(mod, "BUDGET", {}).get(tier, 600 if tier == "quick" else 3000)
+        budget_s = 2 * getattr(mod, "BUDGET", {}).get(tier, 600 if tier == "quick" else 3000)  # generous: a loaded machine must not turn a pass into "inconclusive"
     deadline = t0 + budget_s
     workers = workers or min(16, os.cpu_count() or 1)
     models.lib_modules()  # import the library once, before forking the workers
